@@ -150,9 +150,21 @@ def quantisation(chk, w):
         else:
             # positive seed of the running maximum: the named f64 local folded with max() starts from a positive constant
             seeds = []
+            # the running maximum, found by structure: the f64 variable that receives the result of f64::max(itself, ..)
+            run_max = set()
+            for blk in b.blocks:
+                tt = blk["term"]
+                if tt["k"] == "call" and (cfgmod.callee(tt) or "").endswith("f64::max"):
+                    tgt = {m_ for m_ in C.move_targets(b, tt["dest"]["local"]) if b.locals[m_]["ty"] == "f64" and m_ in b.names()}
+                    src = set()
+                    for a_ in tt["args"]:
+                        q_ = a_.get("move") or a_.get("copy")
+                        if q_:
+                            src |= C.backward_locals(b, q_["local"], depth=2)
+                    run_max |= (tgt & src)
             for blk in b.blocks:
                 for s in blk["stmts"]:
-                    if s["k"] == "assign" and not s["place"]["proj"] and b.names().get(s["place"]["local"]) == "weight_max" and s["rv"]["k"] == "use" and "const" in s["rv"]["a"]:
+                    if s["k"] == "assign" and not s["place"]["proj"] and s["place"]["local"] in run_max and s["rv"]["k"] == "use" and "const" in s["rv"]["a"]:
                         cv = it.const_val(s["rv"]["a"]["const"])
                         seeds.append(cv)
             chk.ob("R11.3", "train_tag:positive-seed", len(seeds) == 1 and seeds[0][0] == "fl" and seeds[0][1] > 0,
